@@ -39,7 +39,7 @@ class C09(PropBase):
                     yield dict(directed=directed, removal=True, hist=h, family='int', functional=False, fmt=FMTS[i % len(FMTS)], rows4=[])
 
     def n_random(self, tier):
-        return 400 if tier == 'quick' else 6000
+        return 400 if tier == 'quick' else 20000
 
     def random_cases(self, rnd, n):
         for _ in range(n):
